@@ -69,6 +69,8 @@ struct Env<'b, T: El, S: SEl> {
     panic_fired_in_plan: bool,
     /// iterator panic index replayed on the std side (extend / splice only)
     std_ipanic: Option<u32>,
+    /// plan index + op index: picks between two spellings of the same call, reproducibly
+    tick: usize,
     own_checks_off: bool,
 }
 
@@ -358,6 +360,12 @@ impl<'b, T: El + PartialEq, S: SEl> Env<'b, T, S> {
                 Err(_) => "err",
             },
             "shrink" => {
+                if self.tick % 2 == 1 {
+                    // identity: take the vector apart and put it together again (`from_raw_parts_in`)
+                    let mut vec = std::mem::ManuallyDrop::new(self.bv[v].take().unwrap());
+                    let (p, l, c) = (vec.as_mut_ptr(), vec.len(), vec.capacity());
+                    self.bv[v] = Some(unsafe { BVec::from_raw_parts_in(p, l, c, bump) });
+                }
                 self.bv[v].as_mut().unwrap().shrink_to_fit();
                 "ok"
             }
@@ -390,7 +398,8 @@ impl<'b, T: El + PartialEq, S: SEl> Env<'b, T, S> {
             }
             "into_bump_slice" => {
                 let vec = self.bv[v].take().unwrap();
-                let s: &'b [T] = vec.into_bump_slice();
+                // the `_mut` flavour must be the same conversion: taken for every other call
+                let s: &'b [T] = if self.tick % 2 == 1 { vec.into_bump_slice_mut() } else { vec.into_bump_slice() };
                 for e in s {
                     shown.push(e.show());
                     shown_vals.push(e.val());
@@ -730,6 +739,7 @@ pub fn run_plan<T: El + PartialEq, S: SEl>(plan: &mut Plan, gen: Option<(Profile
             z_leaked: 0,
             panic_fired_in_plan: false,
             std_ipanic: None,
+            tick: 0,
             own_checks_off: false,
         };
         let n_target = gen.map(|g| g.1).unwrap_or(plan.ops.len());
@@ -813,6 +823,7 @@ pub fn run_plan<T: El + PartialEq, S: SEl>(plan: &mut Plan, gen: Option<(Profile
             let mut ret: Vec<T> = vec![];
             let mut shown: Vec<String> = vec![];
             let mut shown_vals: Vec<u32> = vec![];
+            env.tick = plan.idx as usize + i;
             begin_op(Env::<T, S>::pk(&op, Pk::Clone), Env::<T, S>::pk(&op, Pk::Drop));
             let (r, _evs) = galloc::record(|| {
                 catch_unwind(AssertUnwindSafe(|| env.crate_op(&op, &mut args, &src, &mut ret, &mut shown, &mut shown_vals)))
@@ -901,6 +912,19 @@ pub fn run_plan<T: El + PartialEq, S: SEl>(plan: &mut Plan, gen: Option<(Profile
                 if let (Some(Some(c0)), Some(Some(b))) = (pre_caps.get(op.v), env.bv.get(op.v).map(|b| b.as_ref())) {
                     if b.capacity() > *c0 && *c0 > 0 && b.capacity() < c0.saturating_mul(2) {
                         fail("C18", "growth-not-geometric", format!("v{} cap {} -> {} (len={})", op.v, c0, b.capacity(), b.len()));
+                    }
+                }
+            }
+            // C13: the slice views are the same elements as indexing/iteration shows
+            if !panicked {
+                if let Some(Some(b)) = env.bv.get_mut(op.v).map(|b| b.as_mut()) {
+                    let n = b.len();
+                    let by_iter: Vec<u64> = b.iter().map(|e| e.id()).collect();
+                    let a: Vec<u64> = b.as_slice().iter().map(|e| e.id()).collect();
+                    let m: Vec<u64> = b.as_mut_slice().iter().map(|e| e.id()).collect();
+                    let (p0, p1) = (b.as_ptr() as usize, b.as_mut_ptr() as usize);
+                    if a != by_iter || m != by_iter || a.len() != n || p0 != p1 {
+                        fail("C13", "view-mismatch", format!("v{} len={} as_slice={} as_mut_slice={} iter={} as_ptr==as_mut_ptr:{}", op.v, n, a.len(), m.len(), by_iter.len(), p0 == p1));
                     }
                 }
             }
